@@ -142,6 +142,9 @@ func (matrix *DenseFloat64Matrix) DIAG() DenseFloat64Vector {
   return DenseFloat64Vector(v)
 }
 func (matrix *DenseFloat64Matrix) SLICE(rfrom, rto, cfrom, cto int) *DenseFloat64Matrix {
+  if rfrom < 0 || rto > matrix.rows || rfrom > rto || cfrom < 0 || cto > matrix.cols || cfrom > cto {
+    panic(fmt.Errorf("slice [%d:%d,%d:%d] out of bounds for matrix of dimension %dx%d", rfrom, rto, cfrom, cto, matrix.rows, matrix.cols))
+  }
   m := *matrix
   m.rowOffset += rfrom
   m.rows = rto - rfrom
